@@ -77,6 +77,7 @@ class TypeRegistry:
                 raise TypeError(f'Invalid register target: {f}, must pass <{self.validator}> validate')
             self._registry.insert(0, (detector, f, priority))
             self._registry.sort(key=lambda v: -v[2])
+            self._cache.clear()
             return f
 
         # before runtime, type will be compiled and applied
